@@ -292,7 +292,9 @@ func init() {
 				n = 8000
 			}
 			for i := 0; i < n; i++ {
-				add(randTable(r, 6, 6, csvText, hows))
+				ts := randTable(r, 6, 6, csvText, hows)
+				enrichSpec(r, &ts, csvText)
+				add(ts)
 			}
 			return out
 		},
